@@ -82,4 +82,17 @@ CHECKS = {
         "level_note": "Oracle encoding/json go1.23.5. Destination contents are not compared when both err (go-json stops at the first type error by design).",
         "assumptions": ["documents are generated valid (checked with the recogniser on every case)"],
     },
+    "C16": {
+        "pkg": "c16", "variants": [PLAIN],
+        "rule": ("encode: every value of int8/uint8/int16/uint16 (and of int32/uint32 in the thorough tier) and, for the wider kinds, every value within a window (2^12 quick, 2^16 thorough) of "
+                 "every power of two and ten plus a pseudo-random fill, each through Marshal of a slice (strconv.FormatInt/FormatUint is the oracle) and boundary values through a struct that puts "
+                 "the value in plain, pointer, omitempty, ,string, map-key, array, slice and interface positions (compact and indent). decode: every literal within a window (2^9 / 2^14) of "
+                 "0, each bound, each power of two and ten, 1..25-digit literals, and the malformed-integer forms, for each of the 11 integer kinds, as top-level value (Unmarshal, Decoder, Decoder "
+                 "with 1-byte reads), in struct/pointer/,string/array/slice positions (buffer and stream) and as map key; oracle strconv.ParseInt/ParseUint(bitSize) + the JSON integer grammar: "
+                 "fits => exactly that value, otherwise an error. Every generated value/literal is distinct by construction and non-trivial (all lie at boundaries or are malformed)."),
+        "technique": "small-scope exhaustive enumeration (all 8/16/32-bit values) and boundary-window enumeration against strconv as reference model",
+        "level_text": "Exhaustive for the narrow kinds, dense boundary windows for the wide ones; exploration level (64-bit values away from the sampled windows are not covered).",
+        "level_note": "Oracle strconv.FormatInt/FormatUint/ParseInt/ParseUint and the JSON integer grammar (ref.IsJSONInteger). Map keys use canonical decimal spellings only.",
+        "assumptions": ["strconv is the reference for decimal conversion"],
+    },
 }
